@@ -542,6 +542,9 @@ impl<S: AsyncRead + AsyncWrite + Unpin> AsyncRead for NoiseSocket<S> {
                             max_size = ?NOISE_EXTRA_ENCRYPT_SPACE,
                             "invalid frame size",
                         );
+                        // Keep the frame size so that polling again reports the same error
+                        // instead of interpreting the bytes that follow as a new frame.
+                        this.current_frame_size = Some(frame_size);
                         return Poll::Ready(Err(io::ErrorKind::InvalidData.into()));
                     }
 
@@ -601,6 +604,9 @@ impl<S: AsyncRead + AsyncWrite + Unpin> AsyncRead for NoiseSocket<S> {
                                         "failed to decrypt message"
                                     );
 
+                                    // Keep the frame so that polling again reports the same
+                                    // error instead of panicking on the missing frame size.
+                                    this.current_frame_size = Some(frame_size);
                                     return Poll::Ready(Err(io::ErrorKind::InvalidData.into()));
                                 }
                                 Ok(nread) => {
@@ -628,6 +634,10 @@ impl<S: AsyncRead + AsyncWrite + Unpin> AsyncRead for NoiseSocket<S> {
                                             "failed to decrypt message for smaller buffer"
                                         );
 
+                                        // Keep the frame and the scratch buffer so that polling
+                                        // again reports the same error instead of panicking.
+                                        this.current_frame_size = Some(frame_size);
+                                        this.decrypt_buffer = Some(buffer);
                                         return Poll::Ready(Err(io::ErrorKind::InvalidData.into()));
                                     }
                                     Ok(nread) => {
